@@ -380,6 +380,79 @@ theorem sem_call {fn : String} (hfn : fn ≠ "unknown") {rs xs : List Expr}
       obtain ⟨vs, hp, he⟩ := hc
       simp [hp, splitPV_values, he, pcallExt_ne_unknown hfn]
 
+theorem zip_fst_snd {α β : Type} (l : List (α × β)) : (l.map Prod.fst).zip (l.map Prod.snd) = l := by
+  induction l with
+  | nil => rfl
+  | cons a l ih => simp [ih]
+
+/-- what collecting the second-pass interpretations of the components of a residual record yields -/
+def CollectKVOK (kvs : List (String × Expr)) (c : Except PRes (List (String × PartialValue))) : Prop :=
+  match c with
+  | .error r => r = .fuel ∨ r = .panic ∨ (∃ c, r = .err c ∧ ∃ c', evaluateKVs req es env kvs = .error c')
+  | .ok pkvs => ∃ vs : List (String × Value),
+      pkvs = vs.map (fun kv => (kv.1, PartialValue.value kv.2)) ∧ evaluateKVs req es env kvs = .ok vs
+
+theorem sem_collectKVs {rkvs kvs : List (String × Expr)}
+    (h : ListRel (fun rk xk => rk.1 = xk.1 ∧
+      ∀ n, Sem (pinterp m preq (.ofConcrete es) env n rk.2) (evaluate req es env xk.2)) rkvs kvs)
+    (n : Nat) : CollectKVOK env req es kvs (collectPVKVs (pinterp m preq (.ofConcrete es) env n) rkvs) := by
+  induction h with
+  | nil => exact ⟨[], rfl, rfl⟩
+  | @cons rk xk rkvs kvs hrx _ ih =>
+    obtain ⟨k, r⟩ := rk
+    obtain ⟨k', x⟩ := xk
+    obtain ⟨hk, hrx⟩ := hrx
+    simp only at hk hrx
+    subst hk
+    simp only [collectPVKVs]
+    rcases hrx n with hx | hx | ⟨v, hx, hy⟩ | ⟨c, c', hx, hy⟩
+    · rw [hx]; exact Or.inl rfl
+    · rw [hx]; exact Or.inr (Or.inl rfl)
+    · rw [hx]
+      simp only
+      cases hc : collectPVKVs (pinterp m preq (.ofConcrete es) env n) rkvs with
+      | error r' =>
+        rw [hc] at ih
+        simp only [Except.map]
+        rcases ih with h | h | ⟨c, hc1, c', hc2⟩
+        · exact Or.inl h
+        · exact Or.inr (Or.inl h)
+        · exact Or.inr (Or.inr ⟨c, hc1, c', by simp [evaluateKVs, hy, hc2]⟩)
+      | ok pvs =>
+        rw [hc] at ih
+        obtain ⟨vs, hp, he⟩ := ih
+        simp only [Except.map]
+        exact ⟨(k, v) :: vs, by simp [hp], by simp [evaluateKVs, hy, he]⟩
+    · rw [hx]
+      exact Or.inr (Or.inr ⟨c, rfl, c', by simp [evaluateKVs, hy]⟩)
+
+theorem sem_record {rkvs kvs : List (String × Expr)}
+    (h : ListRel (fun rk xk => rk.1 = xk.1 ∧
+      ∀ n, Sem (pinterp m preq (.ofConcrete es) env n rk.2) (evaluate req es env xk.2)) rkvs kvs) :
+    ∀ n, Sem (pinterp m preq (.ofConcrete es) env n (.record rkvs)) (evaluate req es env (.record kvs)) := by
+  intro n
+  cases n with
+  | zero => simp [pinterp]
+  | succ n =>
+    have hc := sem_collectKVs m preq env req es h n
+    simp only [pinterp, evaluate]
+    cases hcc : collectPVKVs (pinterp m preq (.ofConcrete es) env n) rkvs with
+    | error r =>
+      rw [hcc] at hc
+      rcases hc with h | h | ⟨c, h1, c', h2⟩
+      · simp [h]
+      · simp [h]
+      · simp [h1, h2]
+    | ok pkvs =>
+      rw [hcc] at hc
+      obtain ⟨vs, hp, he⟩ := hc
+      have h1 : pkvs.map (·.2) = (vs.map Prod.snd).map PartialValue.value := by
+        rw [hp]; simp [List.map_map, Function.comp_def]
+      have h2 : pkvs.map (·.1) = vs.map Prod.fst := by
+        rw [hp]; simp [List.map_map, Function.comp_def]
+      simp only [h1, h2, splitPV_values, he, zip_fst_snd]
+      simp
+
 end
 
 end Cedar
